@@ -310,9 +310,79 @@ class Installed:
         self._saved = [m.__dict__.get("open", _MISSING) for m in self._mods]
         for m in self._mods:
             m.open = self.disk.open
+        self._install_os()
         return self.disk
 
+    # iodata itself never deletes, renames or probes files, but a change to it might ("clean up the
+    # incomplete output"): route those calls to the simulated disk for simulated paths.
+    def _install_os(self):
+        disk = self.disk
+        real = {"remove": os.remove, "unlink": os.unlink, "rename": os.rename, "replace": os.replace,
+                "exists": os.path.exists, "isfile": os.path.isfile, "getsize": os.path.getsize}
+        self._os_real = real
+
+        def simulated(path):
+            try:
+                p = os.fspath(path)
+            except TypeError:
+                return None
+            if isinstance(p, bytes):
+                p = os.fsdecode(p)
+            if p in disk.files:
+                return p
+            # relative paths that do not exist for real belong to the simulation as well
+            if not os.path.isabs(p) and not real["exists"](p):
+                return p
+            return None
+
+        def remove(path, *a, **kw):
+            p = simulated(path)
+            if p is None:
+                return real["remove"](path, *a, **kw)
+            disk.log("unlink", p)
+            if p not in disk.files:
+                raise FileNotFoundError(2, "No such file or directory", p)
+            del disk.files[p]
+            return None
+
+        def rename(src, dst, *a, **kw):
+            p = simulated(src)
+            if p is None:
+                return real["rename"](src, dst, *a, **kw)
+            q = os.fspath(dst)
+            disk.log("rename", p, to=q)
+            if p not in disk.files:
+                raise FileNotFoundError(2, "No such file or directory", p)
+            disk.files[q] = disk.files.pop(p)
+            return None
+
+        def exists(path):
+            p = simulated(path)
+            if p is None:
+                return real["exists"](path)
+            return p in disk.files
+
+        def getsize(path):
+            p = simulated(path)
+            if p is None or p not in disk.files:
+                return real["getsize"](path)
+            return len(disk.files[p])
+
+        os.remove = remove
+        os.unlink = remove
+        os.rename = rename
+        os.replace = rename
+        os.path.exists = exists
+        os.path.isfile = exists
+        os.path.getsize = getsize
+
+    def _uninstall_os(self):
+        r = self._os_real
+        os.remove, os.unlink, os.rename, os.replace = r["remove"], r["unlink"], r["rename"], r["replace"]
+        os.path.exists, os.path.isfile, os.path.getsize = r["exists"], r["isfile"], r["getsize"]
+
     def __exit__(self, *exc):
+        self._uninstall_os()
         for m, old in zip(self._mods, self._saved):
             if old is _MISSING:
                 try:
